@@ -53,6 +53,7 @@ class FnSpec:
         self.r3 = []
         self.r4 = []
         self.replaces = []        # (rule, old, new)
+        self.panics = {}          # 0 (every site) or k (k-th panic! of the body, 1-based) -> spec condition under which the panic is allowed
         self.external = False     # emit as external_body in every unit (trusted contract)
         self.noret = False
         self.used = False
@@ -207,6 +208,13 @@ def parse_vspec(path, rel):
                     cur.r4 += split_list(a[1])
                 else:
                     raise ExtractError('%s:%d: unknown rewrite %s' % (rel, ln, a[0]))
+            elif d == '@panics':
+                # `@panics only_if COND` / `@panics K only_if COND`: the (K-th) panic! of the body may be reached only when COND holds
+                flush()
+                mm = re.match(r'(?:(\d+)\s+)?only_if\s+(.*)$', arg)
+                if not mm:
+                    raise ExtractError('%s:%d: @panics [K] only_if COND' % (rel, ln))
+                cur.panics[int(mm.group(1) or 0)] = mm.group(2).strip()
             elif d == '@replace':
                 flush()
                 mm = re.match(r'(\w+)\s+\|(.*)\|\s*=>\s*\|(.*)\|\s*$', arg)
@@ -321,13 +329,22 @@ class Rewriter:
         # R1 panic! -> ohsl_panic
         out = []
         last = 0
+        site = 0
         for mm in re.finditer(r'\bpanic!\s*\(', text):
             if not m[mm.start()]:
                 continue
+            site += 1
             out.append(text[last:mm.start()])
-            out.append('ohsl_panic(')
+            cond = None
+            if spec is not None and part == 'body' and spec.panics:
+                cond = spec.panics.get(site, spec.panics.get(0))
+            if cond is not None:
+                # the panic is reachable only under the stated rejection condition (obligation: callee precondition)
+                out.append('ohsl_panic_when(Ghost((%s)), ' % cond)
+            else:
+                out.append('ohsl_panic(')
             last = mm.end()
-            self.log.append(('R1', fid, 'panic! -> ohsl_panic'))
+            self.log.append(('R1', fid, 'panic! -> ohsl_panic' + ('_when' if cond is not None else '')))
         out.append(text[last:])
         text = ''.join(out)
         # R2 &dyn Fn -> &impl Fn (signatures only)
@@ -449,7 +466,9 @@ class Rewriter:
 
     def r3(self, text, place):
         """`PLACE op= EXPR;` -> `PLACE = PLACE op (EXPR);` for every occurrence."""
-        pat = re.compile(r'(?<![\w.\]\)])' + re.escape(place) + r'\s*([-+*/])=(?!=)')
+        # `X[*]` stands for X indexed by any bracket-free expression (the index written in the code is kept)
+        place_re = re.escape(place).replace(r'\[\*\]', r'\[[^\[\]]*\]')
+        pat = re.compile(r'(?<![\w.\]\)])(' + place_re + r')\s*([-+*/])=(?!=)')
         pos = 0
         n = 0
         while True:
@@ -464,13 +483,13 @@ class Rewriter:
             if semi < 0:
                 raise ExtractError('R3: no terminating ; for %s' % place)
             expr = text[mm.end():semi]
-            new = '%s = %s %s (%s)' % (place, place, mm.group(1), expr.strip())
+            new = '%s = %s %s (%s)' % (mm.group(1), mm.group(1), mm.group(2), expr.strip())
             # keep the number of newlines so that the line map stays exact
             new += '\n' * (text[mm.start():semi].count('\n') - new.count('\n'))
             text = text[:mm.start()] + new + text[semi:]
             pos = mm.start() + len(new)
             n += 1
-            self.log.append(('R3', self.spec.ident, '%s %s=' % (place, mm.group(1))))
+            self.log.append(('R3', self.spec.ident, '%s %s=' % (place, mm.group(2))))
         if n == 0:
             raise ExtractError('%s: R3 place %r not found' % (self.spec.origin, place))
         return text
